@@ -19,6 +19,10 @@ CHECKS = {
    "rapid-generated package directories (build-constraint expressions, legacy +build lines, file-name suffixes, cgo and .inc.js files, -tags sets) whose selected files are compared with an independent evaluator of the documented rules; a subset is compiled and run with self-registering files; the GOROOT packages are checked as a fixed corpus under js/wasm",
    "go/build/constraint is trusted to parse expressions; tag predicate and file-name rule are transcribed from the documentation; known OS/arch lists are those of the installed Go",
    "property-based testing against an independent reference evaluator (rapid)"),
+ "C12": ("exploration",
+   "rapid-generated (original, overlay) source pairs merged by the real augmentation code and compared declaration by declaration, file by file and in order, with an independent implementation of the documented merge rules; the merged package must type-check; all natives packages present in the GOROOT are pushed through the real parseAndAugment as a fixed corpus",
+   "the augmentation entry points are reached through verif-tagged hooks that repeat the call sequence of parseAndAugment; go/parser, go/printer, go/types are trusted",
+   "property-based testing against an independently written reference implementation (rapid)"),
 }
 PENDING_REASON = "check not built yet in this session (work in progress; see DESIGN.md §8 for the order)"
 props=[json.loads(l)['id'] for l in open('/verif/properties.jsonl')]
